@@ -60,5 +60,6 @@ F  harmless: clean's locals renamed (totalSize, entries, size)
 
 Unchanged tree: exit 0, 13/13, 613-617 cases, 0 disagreements, oracle failures only in the two listed classes.
 Measured quick wall times 243 s .. 854 s for 2-4 CPU-min per run (shared lake lock); harness alone ~14 s.
-Thorough tier NOT run yet.
+Thorough tier: exit 0, 13/13 incl. leanchecker, 6,757 cases (2,500 real passes over layouts), 0 disagreements, oracle
+failures only in the two listed classes; 16 min 33 s wall for 4.4 CPU-min (shared lake lock).
 """
